@@ -51,12 +51,15 @@ __CPROVER_ensures(this->length == WV_HLEN_OF_TYPE(hashtype) && fp->pos == fp->le
 void hmac__writeFileHmac(hmac *this, u8_t hashtype, FILE *fp, u8_t *key, u8_t hashMark, u8_t writeMark, size_t fsize)
 __CPROVER_requires(__CPROVER_is_fresh(this, sizeof(*this)) && WV_HT_OK(hashtype) && __CPROVER_is_fresh(key, 16) && __CPROVER_is_fresh(fp, sizeof(wv_FILE)) &&
                    fp->open && fp->len < (1ull << 58) && hashMark <= fp->len)
-__CPROVER_requires(wv_g < 64 && wv_gr < WV_HLEN_OF_TYPE(hashtype) && wv_hl_n < (1ull << 50))
+__CPROVER_requires(wv_g < 64 && wv_gr < WV_HLEN_OF_TYPE(hashtype) && wv_hl_n < (1ull << 50) && wv_wcount < (1ull << 60))
 __CPROVER_assigns(this->length, this->hmac_res, this->buf, WV_HMAC_GHOSTS, wv_tagv, WV_FILE_WSTATE(fp))
 __CPROVER_ensures(this->length == WV_HLEN_OF_TYPE(hashtype) && wv_flen0 == __CPROVER_old(fp->len) - hashMark)
 __CPROVER_ensures(fp->nwrites == __CPROVER_old(fp->nwrites) + 1 && fp->last_woff == writeMark && fp->last_wlen == WV_HLEN_OF_TYPE(hashtype))
 __CPROVER_ensures(fp->len == ((wv_u64)writeMark + WV_HLEN_OF_TYPE(hashtype) > __CPROVER_old(fp->len) ? (wv_u64)writeMark + WV_HLEN_OF_TYPE(hashtype) : __CPROVER_old(fp->len)))
-__CPROVER_ensures((wv_wP >= writeMark && wv_wP < (wv_u64)writeMark + WV_HLEN_OF_TYPE(hashtype)) ==> wv_wbyte == wv_tag[wv_wP - writeMark]);
+__CPROVER_ensures((wv_wP >= writeMark && wv_wP < (wv_u64)writeMark + WV_HLEN_OF_TYPE(hashtype)) ?
+                  (wv_wbyte == wv_tag[wv_wP - writeMark] && wv_wcount == __CPROVER_old(wv_wcount) + 1) :
+                  (wv_wbyte == __CPROVER_old(wv_wbyte) && wv_wcount == __CPROVER_old(wv_wcount)))
+__CPROVER_ensures(fp->nbytes == __CPROVER_old(fp->nbytes) + WV_HLEN_OF_TYPE(hashtype) && fp->open);
 
 /* ---------------- FileHeader: reading side (C05, C06, C11, C12) */
 #define WV_FH_IN(h) (__CPROVER_is_fresh(h, sizeof(FileHeader)) && __CPROVER_is_fresh((h)->fp, sizeof(wv_FILE)) && WV_FILE_OPEN((h)->fp))
@@ -96,7 +99,8 @@ __CPROVER_requires(__CPROVER_is_fresh(this, sizeof(*this)) && this->num >= 1 && 
                    __CPROVER_is_fresh(r_buf, wv_slen + 1) && r_buf[wv_slen] == 0 && __CPROVER_is_fresh(iv, 320))
 __CPROVER_requires(wv_g < 64 && wv_gr < 20 && wv_hl_n < (1ull << 50))
 __CPROVER_assigns(__CPROVER_object_whole(iv), wv_hl, wv_hl_out)
-__CPROVER_ensures(wv_hl_out == iv + 20 * (this->num - 1));
+__CPROVER_ensures(wv_hl_out == iv + 20 * (this->num - 1))
+__CPROVER_ensures(wv_hl_n >= __CPROVER_old(wv_hl_n) && wv_hl_n <= __CPROVER_old(wv_hl_n) + (wv_slen >> 6) + 18);
 
 #define WV_HDR_BYTE(h, iv, o) ((o) < 8 ? (((o) & 1) ? 0xA5 : 0xC3) : (o) == 8 ? (h)->ctype : (o) == 9 ? (h)->htype : (o) < 48 ? 0 : (iv)[(o) - 48])
 void FileHeader__getFileHeader(FileHeader *this, u8_t *iv)
@@ -104,7 +108,8 @@ __CPROVER_requires(__CPROVER_is_fresh(this, sizeof(*this)) && this->num >= 1 && 
                    this->out->open && this->out->pos < (1ull << 50) && this->out->len < (1ull << 50) && __CPROVER_is_fresh(iv, 320) && wv_wcount < (1ull << 60))
 __CPROVER_assigns(WV_FILE_WSTATE(this->out))
 __CPROVER_ensures(this->out->pos == __CPROVER_old(this->out->pos) + 48 + 20ull * this->num && this->out->nwrites == __CPROVER_old(this->out->nwrites) + 4 + this->num)
-__CPROVER_ensures(this->out->nbytes == __CPROVER_old(this->out->nbytes) + 48 + 20ull * this->num)
+__CPROVER_ensures(this->out->nbytes == __CPROVER_old(this->out->nbytes) + 48 + 20ull * this->num && this->out->open)
+__CPROVER_ensures(this->out->len == (this->out->pos > __CPROVER_old(this->out->len) ? this->out->pos : __CPROVER_old(this->out->len)))
 /* every header byte is written exactly once, with the documented value (magic, modes, 38 zero bytes, the IV table) */
 __CPROVER_ensures((wv_wP >= __CPROVER_old(this->out->pos) && wv_wP < __CPROVER_old(this->out->pos) + 48 + 20ull * this->num) ?
                   (wv_wcount == __CPROVER_old(wv_wcount) + 1 && wv_wbyte == WV_HDR_BYTE(this, iv, wv_wP - __CPROVER_old(this->out->pos))) :
